@@ -34,6 +34,7 @@ class Shared:
         self.jp = JsonParser(context=self.ctx)
         self.js = JsonSerializer(context=self.ctx)
         self.dd = DictDecoder(context=self.ctx)
+        self.dds = self.dd
         self.de = DictEncoder(context=self.ctx)
 
 
